@@ -361,7 +361,7 @@ def r4(F, R):
         D = C12.draw_block(w)
         if mb and D is not None:
             msg, head, out, tr = mb
-            if "Disconnected" in out and head not in w.reach_from(out["Disconnected"]):
+            if "Disconnected" in out and head not in K.reach_feasible(w, out["Disconnected"]):
                 R.ok("C11-R4", "worker:disconnected", w.path, "worker leaves its loop on Disconnected")
             else:
                 R.bad("C11-R4", "worker:disconnected", w.path, "worker does not leave its loop on Disconnected")
